@@ -604,7 +604,19 @@ func (e *Evaluator) evalBinaryExpr(expr *ExprBinary) (*Cell, error) {
 			memberVal.ParentObj = &left.Value
 			return NewCell(memberVal), nil
 		}
-		member.Value.Binding = &left.Value
+
+		if member.Value.Tag == ValueNativeFn {
+			// a method. the cell found is shared by every value with this
+			// prototype, so never write to it: hand out a copy bound to this
+			// receiver. the copy also knows the receiver and key it was looked up
+			// with, so assigning to it sets a member on the receiver
+			method := member.Value
+			method.Binding = &left.Value
+			method.ParentObj = &left.Value
+			key := right.Value.String()
+			method.Str = &key
+			return NewCell(method), nil
+		}
 
 		return member, nil
 	case LessThan, GreaterThan, EqualEqual, LessEqual, GreaterEqual, BangEqual:
